@@ -101,6 +101,24 @@ def pointset(family, d, n, seed):
         return (g + 1.5) * scale
     elif family == 'minimal':
         p = 0.5 + 0.1 * r.normal(size=(d + 1, d))
+    elif family == 'slabs':
+        # two thin slabs hugging two DIFFERENT faces of the cube, each spanning the full range of the
+        # other dimensions: after a split the members are mixtures with different cube/ellipsoid
+        # dimension patterns whose ellipsoidal dimension pokes through a face
+        p = r.random((n, d))
+        lab = np.arange(n) % 2
+        for k in range(2):
+            p[lab == k, k] = np.abs(r.normal(size=int(np.sum(lab == k)))) * 0.01
+    elif family == 'tilted':
+        # strongly correlated wide Gaussian (rho = 0.98) restricted to the cube: the bounding ellipsoid
+        # pokes through cube faces although its axis intercepts lie inside
+        out = np.zeros((0, d))
+        while len(out) < n:
+            g = r.normal(size=(4 * n, d)) * 0.25
+            g[:, 1] = 0.98 * g[:, 0] + np.sqrt(1 - 0.98 ** 2) * g[:, 1]
+            q = 0.5 + g
+            out = np.vstack([out, q[np.all((q >= 0) & (q < 1), axis=1)]])
+        p = out[:n]
     else:
         raise ValueError(family)
     top = np.nextafter(1.0, 0.0)
